@@ -609,7 +609,14 @@ func verifE2E(op *verifOp, res *verifOut) {
 		args[i] = sub.Replace(a)
 	}
 	done := make(chan error, 1)
-	go func() { done <- attackCmd().fn(args) }()
+	go func() {
+		defer func() { // a panic of the command is what the run showed, not the end of the driver
+			if r := recover(); r != nil {
+				done <- fmt.Errorf("panic: %v", r)
+			}
+		}()
+		done <- attackCmd().fn(args)
+	}()
 	select {
 	case err := <-done:
 		res.Err = verifErr(err)
